@@ -125,15 +125,33 @@ def _roi_side():
 
 
 def _safe_step(a, g):
-    """Move a scan step (object pixels) away from values for which some raster position k * a,
-    k < g, falls within 0.01 px of a half-integer: the rounding of x.5 positions is a convention, not
-    physics (such cases would be skipped by the check)."""
+    """Move a *generic* scan step (object pixels) away from values for which some raster position k * a,
+    k < g, falls within 0.01 px of a half-integer: float32 position arithmetic inside the library would
+    decide on which side of the tie such a point lands (exact ties are generated on purpose by _axis)."""
     a = round(float(a), 4)
     for _ in range(200):
         if all(abs((k * a) % 1.0 - 0.5) > 0.01 for k in range(1, g)):
             return a
         a = round(a + 0.0113, 4)
     return a
+
+
+@st.composite
+def _axis(draw, g):
+    """(scan step in object pixels, object pixel size in Angstrom, kind) for one scan axis.
+
+    generic  step 1.05-6 px with 4 decimals, pixel size 0.15-0.8 A: fractional positions, no ties
+    half     step k + 0.5 px and a power-of-two pixel size: step_A, step_A * k and their float32 images
+             are exact, so every other scan point sits EXACTLY half-way between two object pixels, with
+             even and odd lower neighbours alternating along the axis (1.5: 1.5, 4.5, 7.5 ...)
+    int      integer step and a power-of-two pixel size: every position is exactly an integer"""
+    kind = draw(st.sampled_from(["generic", "generic", "generic", "half", "half", "int"]))
+    if kind == "generic":
+        return _safe_step(draw(_fl(1.05, 6.0)), g), draw(_fl(0.15, 0.8)), kind
+    samp = draw(st.sampled_from([0.25, 0.5]))
+    if kind == "half":
+        return draw(st.sampled_from([1.5, 2.5, 3.5, 4.5, 5.5])), samp, kind
+    return draw(st.sampled_from([2.0, 3.0, 4.0, 5.0])), samp, kind
 
 
 @st.composite
@@ -150,17 +168,32 @@ def cases(draw, even_only=False):
     M = draw(st.sampled_from([1, 1, 2, 2, 3]))
     rmax = min(R, C) / 2.0 - 0.5
     batch = draw(st.one_of(st.integers(1, J), st.sampled_from([1, 2, J, max(1, J // 2), max(1, J - 1)])))
-    if J // batch > 12:
-        batch = max(batch, -(-J // 12))  # at most 12 batches (bounds the run time, keeps ragged partitions)
-    return {
+    recon = None
+    if draw(st.integers(0, 3)) == 0:
+        # history kind: 2-3 public reconstruct() calls at the ground truth with independently drawn losses
+        ncalls = draw(st.integers(2, 3))
+        recon = {
+            "calls": [
+                {"loss": draw(st.sampled_from(LOSSES)), "reset": draw(st.sampled_from([False, False, True])), "iters": draw(st.integers(1, 2))}
+                for _ in range(ncalls)
+            ]
+        }
+    max_batches = 4 if recon else 12  # bounds the run time, keeps ragged partitions
+    if -(-J // batch) > max_batches:
+        batch = -(-J // max_batches)
+    a0, s0, k0 = draw(_axis(g0))
+    a1, s1, k1 = draw(_axis(g1))
+    case = {
         "roi": [R, C],
         "gpts": [g0, g1],
-        "sampling": [draw(_fl(0.15, 0.8)), draw(_fl(0.15, 0.8))],
-        "step_px": [_safe_step(draw(_fl(1.05, 6.0)), g0), _safe_step(draw(_fl(1.05, 6.0)), g1)],
+        "sampling": [s0, s1],
+        "step_px": [a0, a1],
+        "step_kind": [k0, k1],
         "energy": draw(st.sampled_from([60e3, 80e3, 200e3, 300e3])),
         "S": S,
         "thick": [draw(_fl(2.0, 40.0, 3)) for _ in range(S - 1)],
         "M": M,
+        "mode_order": list(draw(st.permutations(list(range(M))))),
         "obj_type": draw(st.sampled_from(["complex", "pure_phase", "potential"])),
         "obj": {"strength": draw(_fl(0.8, 3.1, 3)), "smooth": draw(st.booleans())},
         "probe": {
@@ -182,6 +215,9 @@ def cases(draw, even_only=False):
         },
         "seed": draw(SEEDS),
     }
+    if recon:
+        case["recon"] = recon
+    return case
 
 
 # ------------------------------------------------------------------------------------------------
@@ -233,6 +269,85 @@ def _eval(ctx, case, pt, batches, lt, J, want_grad):
     return L, Lb, g_obj, g_probe, pred
 
 
+_GC = {"n": 0}
+
+
+def _gc_fast():
+    """Ptychography.reconstruct ends with two gc.collect() calls, which cost ~0.15 s each on the large heap
+    of a worker process.  Freezing the objects that exist now makes those collections look at new objects
+    only (~0.01 s); every 40th call the heap is thawed and collected for real so that nothing leaks.
+    Pure performance measure on the harness side, no influence on results."""
+    import gc
+
+    if _GC["n"] % 40 == 0:
+        gc.unfreeze()
+        gc.collect()
+    gc.freeze()
+    _GC["n"] += 1
+
+
+def _mode_order(case):
+    M = int(case["M"])
+    order = [int(v) for v in case.get("mode_order", range(M))]
+    if sorted(order) != list(range(M)):
+        raise core.HarnessError("mode_order is not a permutation")
+    return order
+
+
+def _recon_kwargs(case):
+    """Arguments that make reconstruct() evaluate the loss AT the installed models: no optimiser at all
+    for descan mode A; for mode B the dataset optimiser the mode needs, with learning rate 0."""
+    if case["descan"] == "A":
+        return {"constraints": {}}
+    return {
+        "optimizer_params": {"dataset": {"type": "adam", "lr": 0.0}},
+        "constraints": {"dataset": {"descan_shifts_constant": True}},
+    }
+
+
+def _check_recon(ctx, case, pt, obj, probe_installed, tol_of, where):
+    """2-3 public reconstruct() calls at the ground truth; every reported iteration loss must meet the
+    truth bound of the loss type of the call that produced it."""
+    calls = case["recon"]["calls"]
+    obj0 = B.to_np(pt.obj_model.params).copy()
+    expected = 0
+    hist = []
+    for ci, call in enumerate(calls):
+        lt = call["loss"]
+        iters = int(call["iters"])
+        reset = bool(call["reset"])
+        _gc_fast()
+        with ctx.sut(case, "reconstruct(num_iters=%d, reset=%s, loss_type=%r) [call %d]" % (iters, reset, lt, ci + 1)):
+            pt.reconstruct(
+                num_iters=iters, reset=reset, batch_size=int(case["batch"]), loss_type=lt, autograd=True, **_recon_kwargs(case)
+            )
+            losses = np.asarray(pt.iter_losses, dtype=np.float64)
+        start = 0 if reset else expected
+        expected = start + iters
+        hist.append("%s%s x%d" % (lt, " (reset)" if reset else "", iters))
+        if len(losses) != expected:
+            _fail(case, "after calls [%s] iter_losses has %d entries, expected %d" % ("; ".join(hist), len(losses), expected))
+        new = losses[start:]
+        tol = tol_of(lt)
+        if new.size:
+            _stat("reconstruct() iteration loss / tol [%s]" % lt, float(np.max(new)) / tol, case)
+        if not np.all(np.isfinite(new)) or np.any(new > tol):
+            _fail(
+                case,
+                "reconstruct() at the ground truth reports %s iteration losses %s (tolerance %.3e) after the call sequence [%s] (%s)"
+                % (lt, ["%.3e" % v for v in new], tol, "; ".join(hist), where),
+            )
+    # the bound is only owed if the models stayed at the truth: make sure the harness did not move them
+    obj1 = B.to_np(pt.obj_model.params)
+    prb1 = B.to_np(pt.probe_model.params[-1])
+    if obj1.shape != obj0.shape or np.abs(obj1 - obj0).max() > 1e-6 * max(1.0, np.abs(obj0).max()):
+        raise core.HarnessError("object parameters moved during reconstruct() without an object optimiser")
+    if np.abs(prb1 - probe_installed).max() > 1e-5 * np.abs(probe_installed).max():
+        raise core.HarnessError("probe parameters moved during reconstruct() without a probe optimiser")
+    if pt.obj_model.has_optimizer() or pt.probe_model.has_optimizer():
+        raise core.HarnessError("unexpected object/probe optimiser")
+
+
 def check(ctx, case):
     R, C = case["roi"]
     g0, g1 = case["gpts"]
@@ -241,6 +356,8 @@ def check(ctx, case):
     lt = case["loss"]
     npix = R * C
     odd = bool(R % 2 or C % 2)
+    order = _mode_order(case)
+    recon = case.get("recon")
 
     # -- 1. geometry from the library --------------------------------------------------------------
     with ctx.sut(case, "preprocessing an all-ones dataset (geometry query)"):
@@ -255,8 +372,15 @@ def check(ctx, case):
         np.any(np.rint(pos) - np.array([R // 2, C // 2])[None] < 0)
         or np.any(np.rint(pos) + np.array([(R + 1) // 2, (C + 1) // 2])[None] > np.array(shape2d)[None])
     )
+    # positions half-way between two pixels.  exact: the library's own (float32) position is the very same
+    # number k + 0.5; near: within 2e-3 but not exact -- float32 arithmetic decides the side, not judged
+    near = np.abs(np.abs(frac) - 0.5) < 2e-3
+    exact = (np.abs(frac) == 0.5) & (geo["positions"] == pos)
+    ties = near & exact
+    has_tie = bool(np.any(ties))
 
     classes = [
+        "kind:" + ("reconstruct_history" if recon else "forward"),
         "S%d" % S,
         "M%d" % M,
         "type:" + case["obj_type"],
@@ -267,17 +391,31 @@ def check(ctx, case):
         "batches:%s" % ("1" if case["batch"] >= J else ("ragged" if J % case["batch"] else "equal")),
         "pad:" + ("requested>0" if min(case["pad"]) > 0 else "requested_0_on_an_axis"),
     ]
+    if M >= 2:
+        classes.append("modes:" + ("installed_strongest_first" if order == sorted(order) else "installed_out_of_order"))
+    if has_tie:
+        lower = np.floor(pos[ties]).astype(np.int64)
+        if np.any(lower % 2 == 0):
+            classes.append("tie:half_pixel_position_even_lower_neighbour")
+        if np.any(lower % 2 == 1):
+            classes.append("tie:half_pixel_position_odd_lower_neighbour")
+    if np.any(np.all(frac == 0.0, axis=0)):
+        classes.append("positions:exactly_integer_on_an_axis")
     if wraps:
         classes.append("patch_wraps_around_object_edge")
     if outside:
         classes.append("raster_reaches_beyond_last_object_pixel")
     if not case.get("clip", True):
         classes.append("clip_scan_positions_off")
-    nontrivial = bool(S >= 2 or M >= 2 or R != C or (fractional and padded))
+    if recon:
+        fam = ["amplitude" in c["loss"] for c in recon["calls"]]
+        for i in range(1, len(fam)):
+            if fam[i] != fam[i - 1]:
+                classes.append("history:loss_family_changes_" + ("after_reset" if recon["calls"][i]["reset"] else "on_continuation"))
+    nontrivial = bool(S >= 2 or M >= 2 or R != C or (fractional and padded) or recon)
 
-    # rounding of an exact half-pixel position is a convention, not physics: not judged
-    if np.any(np.abs(np.abs(frac) - 0.5) < 2e-3):
-        ctx.record(case, False, classes + ["skipped:half_pixel_position"])
+    if np.any(near & ~exact):
+        ctx.record(case, False, classes + ["skipped:near_half_pixel_position"])
         return
     if outside and case.get("clip", True) and _open(ctx, KEY_CLIP):
         ctx.exclude(KEY_CLIP)
@@ -289,66 +427,95 @@ def check(ctx, case):
         return
     ctx.record(case, nontrivial, classes)
 
-    # -- 2. ground truth and reference data ---------------------------------------------------------
+    # -- 2. ground truth ------------------------------------------------------------------------------
     oshape = (S,) + tuple(shape2d)
     obj = B.truth_object(case, oshape)
-    probe = B.truth_probe(case)
+    probe = B.truth_probe(case)  # strongest mode first; the reference does not care about the order
+    probe_inst = probe[order]  # ... the library gets the modes in the drawn order
     samp = geo["obj_sampling"]
     thick = case["thick"]
     E = float(case["energy"])
-    I_true = sim.simulate(obj, case["obj_type"], probe, pos, samp, E, thick)
-    imean = float(I_true.sum(axis=(1, 2)).mean())
-    peak_ratio = float(I_true.max() * npix / imean)  # 1 for a flat pattern; l2_intensity rounding scales with it
-    meas = I_true.astype(np.float32).astype(np.float64)  # what the library is given
-    obj_p = B.perturbed_object(case, obj, float(case["pert"]["obj_sigma"]))
-    probe_p = B.truth_probe(case, extra_defocus=float(case["pert"]["probe_defocus"]))
-    I_po = sim.simulate(obj_p, case["obj_type"], probe, pos, samp, E, thick)
-    I_pp = sim.simulate(obj, case["obj_type"], probe_p, pos, samp, E, thick)
-
-    # -- 3. the library on that data -----------------------------------------------------------------
-    with ctx.sut(case, "dataset preprocessing / Ptychography.from_models / preprocess"):
-        pdset = B.make_dataset(case, I_true)
-        pt = B.make_ptycho(case, pdset, obj)
-        B.configure(case, pt, lt)
-        B.install_probe(pt, probe)
-    if tuple(int(v) for v in pt.obj_shape_full) != oshape:
-        raise core.HarnessError("object shape changed between the geometry query and the real build")
-    descan_on = case["descan"] != "A"
-    if bool(pt.dset.learn_descan and pt.dset.has_optimizer()) != descan_on:
-        raise core.HarnessError("descan mode was not taken")
-    lib_imean = float(pt.dset.mean_diffraction_intensity)
-
     batches = _partition(case, J)
     want_grad = lt.startswith("l2")
     phi = propagator_phase(case, samp)
-    tol = truth_tol(lt, J, npix, imean, peak_ratio, phi)
     fphi = 1.0 + phi / 10.0  # float32 evaluation of the propagator phase, see truth_tol
     _stat("propagator phase (rad)", phi)
     full = np.arange(J)
-
-    # 3a. ground truth
-    L0, L0b, g0_obj, g0_probe, pred0 = _eval(ctx, case, pt, batches, lt, J, want_grad)
-    _stat("truth loss / tol [%s]" % lt, L0 / tol, case)
     where = "S=%d M=%d %s roi=%s descan=%s" % (S, M, case["obj_type"], case["roi"], case["descan"])
-    if L0 > tol:
-        rel = float(np.abs(pred0 - meas).max() / meas.max())
-        if outside:
-            where += "; the raster reaches beyond the last object pixel (object %s, largest position %s): the default "\
-                "clip_scan_positions constraint moves those scan points [%s]" % (list(shape2d), np.round(pos.max(axis=0), 3).tolist(), KEY_CLIP)
-        _fail(
-            case,
-            "%s at the ground truth is %.3e (tolerance %.3e; %s); library prediction differs from the reference "
-            "data by %.2e of the peak intensity" % (lt, L0, tol, where, rel),
-        )
+    if M >= 2:
+        where += " mode order %s" % order
+    if has_tie:
+        where += "; scan points exactly half-way between object pixels: %s" % np.unique(pos[ties]).tolist()[:6]
+    descan_on = case["descan"] != "A"
+
+    # -- 3. reference data -> library -> loss at the truth.  A position exactly half-way between two pixels has
+    # two nearest pixels; either may serve as the window origin as long as the probe is shifted consistently, but
+    # the finite probe window makes the two models differ at the window edge.  The library is free to use any
+    # consistent rule: the data are simulated under each of the three rules in turn and the truth loss must
+    # vanish for one of them (cases without ties have a single model).
+    rules = sim.TIE_RULES if has_tie else ("even",)
+    first_failure = None
+    chosen = None
+    for rule in rules:
+        I_true = sim.simulate(obj, case["obj_type"], probe, pos, samp, E, thick, tie=rule)
+        imean = float(I_true.sum(axis=(1, 2)).mean())
+        peak_ratio = float(I_true.max() * npix / imean)  # 1 for a flat pattern; l2_intensity rounding scales with it
+        meas = I_true.astype(np.float32).astype(np.float64)  # what the library is given
+        with ctx.sut(case, "dataset preprocessing / Ptychography.from_models / preprocess"):
+            pdset = B.make_dataset(case, I_true)
+            pt = B.make_ptycho(case, pdset, obj)
+            B.configure(case, pt, lt)
+            B.install_probe(pt, probe_inst)
+        if tuple(int(v) for v in pt.obj_shape_full) != oshape:
+            raise core.HarnessError("object shape changed between the geometry query and the real build")
+        if bool(pt.dset.learn_descan and pt.dset.has_optimizer()) != descan_on:
+            raise core.HarnessError("descan mode was not taken")
+        tol = truth_tol(lt, J, npix, imean, peak_ratio, phi)
+        L0, L0b, g0_obj, g0_probe, pred0 = _eval(ctx, case, pt, batches, lt, J, want_grad)
+        if L0 <= tol:
+            chosen = rule
+            break
+        if first_failure is None:
+            rel = float(np.abs(pred0 - meas).max() / meas.max())
+            w = where
+            if outside:
+                w += "; the raster reaches beyond the last object pixel (object %s, largest position %s): the default "\
+                    "clip_scan_positions constraint moves those scan points [%s]" % (list(shape2d), np.round(pos.max(axis=0), 3).tolist(), KEY_CLIP)
+            first_failure = (
+                "%s at the ground truth is %.3e (tolerance %.3e; %s); library prediction differs from the reference "
+                "data by %.2e of the peak intensity" % (lt, L0, tol, w, rel)
+            )
+    if chosen is None:
+        if has_tie:
+            first_failure += " [no consistent tie rule (%s) reproduces the data either]" % "/".join(rules)
+        _fail(case, first_failure)
+    if has_tie:
+        ctx.count("tie_rule_matching_library:" + chosen)
+    lib_imean = float(pt.dset.mean_diffraction_intensity)
+    _stat("truth loss / tol [%s]" % lt, L0 / tol, case)
     for b, Lb in zip(batches, L0b):
         if Lb > tol:
             _fail(case, "%s of batch %s at the ground truth is %.3e (tolerance %.3e; %s)" % (lt, b.tolist(), Lb, tol, where))
+    _stat("|lib mean intensity - ref| / ref", abs(lib_imean - imean) / imean)
 
-    # 3b. perturbed object, 3c. perturbed probe
-    results = {}
+    # -- 4. history kind: the same bound through the public reconstruct() --------------------------------
+    if recon:
+        with ctx.sut(case, "dataset preprocessing / Ptychography.from_models / preprocess"):
+            pdset2 = B.make_dataset(case, I_true)
+            pt2 = B.make_ptycho(case, pdset2, obj)
+            pt2.probe_model.initial_probe = np.asarray(probe_inst, dtype=np.complex128)  # reset=True returns to it
+            B.install_probe(pt2, probe_inst)
+        _check_recon(ctx, case, pt2, obj, probe_inst, lambda t: truth_tol(t, J, npix, imean, peak_ratio, phi), where)
+        return
+
+    # -- 5. forward kind: perturbed object, perturbed probe --------------------------------------------
+    obj_p = B.perturbed_object(case, obj, float(case["pert"]["obj_sigma"]))
+    probe_p = B.truth_probe(case, extra_defocus=float(case["pert"]["probe_defocus"]))
+    I_po = sim.simulate(obj_p, case["obj_type"], probe, pos, samp, E, thick, tie=chosen)
+    I_pp = sim.simulate(obj, case["obj_type"], probe_p, pos, samp, E, thick, tie=chosen)
     for name, I_ref, install, restore in (
         ("object", I_po, lambda: B.install_object(pt, obj_p), lambda: B.install_object(pt, obj)),
-        ("probe", I_pp, lambda: B.install_probe(pt, probe_p), lambda: B.install_probe(pt, probe)),
+        ("probe", I_pp, lambda: B.install_probe(pt, probe_p[order]), lambda: B.install_probe(pt, probe_inst)),
     ):
         with ctx.sut(case, "installing the perturbed %s" % name):
             install()
@@ -357,7 +524,6 @@ def check(ctx, case):
         with ctx.sut(case, "restoring the ground-truth %s" % name):
             restore()
         Lref = sim.loss(I_ref, meas, full, lt, J, imean)
-        results[name] = (L1, Lref)
         visible = Lref > VISIBLE * tol
         if not visible:
             ctx.count("perturbed_%s_not_visible_in_reference" % name)
@@ -396,7 +562,6 @@ def check(ctx, case):
                     "ground truth is not a stationary point of %s: |dL/d%s| = %.3e at the truth, %.3e at the perturbed %s (%s)"
                     % (lt, name, g0v, g1v, name, where),
                 )
-    _stat("|lib mean intensity - ref| / ref", abs(lib_imean - imean) / imean)
 
 
 def search(ctx):
